@@ -35,9 +35,17 @@ def cubes(tier, has_fc):
         # skip_previous_dependencies: one cube per kind with symbolic skip set
         for kind in range(3):
             out.append({'N': N, 'D': D, 'I': 0, 'kind': kind, 'fd': True, 'cj': 0, 'pfc': False, 'skip': True})
+    # inductive form (c15ind.py): new() establishes the walk invariant, one next() from an arbitrary state preserves it
+    Ni, Di = (4, 2) if tier == 'quick' else (6, 2)
+    for kind in range(3):
+        for fd in (False, True):
+            for cj in ([0] if kind == 1 else [0, 1, 2]):
+                for pfc in ([False, True] if (has_fc and kind != 1) else [False]):
+                    for part in ('init', 'step'):
+                        out.append({'inductive': True, 'part': part, 'N': Ni, 'D': Di, 'I': 1, 'kind': kind, 'fd': fd, 'cj': cj, 'pfc': pfc, 'skip': False})
     return out
 
-def cube_name(c): return f"N{c['N']}D{c['D']}I{c['I']}_k{c['kind']}_fd{int(c['fd'])}_cj{c['cj']}_pfc{int(c['pfc'])}" + ('_skip' if c['skip'] else '') + ('_errors' if c.get('errors') else '')
+def cube_name(c): return (f"inductive-{c['part']}_" if c.get('inductive') else '') + f"N{c['N']}D{c['D']}I{c['I']}_k{c['kind']}_fd{int(c['fd'])}_cj{c['cj']}_pfc{int(c['pfc'])}" + ('_skip' if c['skip'] else '') + ('_errors' if c.get('errors') else '')
 
 def build_errors(mir, cube):
     """its error listing contains precisely the errors attached to what it visited"""
@@ -73,6 +81,9 @@ def build_errors(mir, cube):
     return eng, w, sym.cons + w.invariant(), qs
 
 def build(mir, cube):
+    if cube.get('inductive'):
+        from . import c15ind
+        return c15ind.build(mir, cube)
     if cube.get('errors'): return build_errors(mir, cube)
     N, D, I = cube['N'], cube['D'], cube['I']
     sym = Sym()
